@@ -11,6 +11,7 @@ Rec ==
     [] Part = "cand" -> CandRec(item)
     [] Part = "prio" -> PrioRec(item)
     [] Part = "sets" -> SetsRec(item)
+    [] Part = "uri"  -> UriRec(item)
 
 EmitItem == PrintT(<<"ITEM", ToJson([part |-> Part, rec |-> Rec])>>)
 NoEmit   == TRUE
